@@ -28,8 +28,8 @@ OPS = ["drop_B0", "shift_B0", "drop_TS0", "shift_TS0", "dup_B", "swap_B", "zero_
 
 
 def required(tier):
-    return [f"op:{o}" for o in OPS] + ["pos:first", "pos:middle", "pos:last", "zero_last:no_governed_events:parsed_and_queries_raise",
-                                        "zero_last:governed_events:ValueError", "single_tempo_map", "negative_tick_query_raises",
+    return [f"op:{o}" for o in OPS] + ["pos:first", "pos:middle", "pos:last", "zero_last:no_governed_events",
+                                        "zero_last:governed_events", "single_tempo_map", "negative_tick_query_raises",
                                         "ctor:BPMEvents:resolution<=0", "ctor:BPMEvents:empty", "ctor:BPMEvents:first_tick!=0:1", "ctor:BPMEvents:first_tick!=0:2",
                                         "ctor:BPMEvents:first_tick!=0:many", "ctor:SyncTrack:no_signature", "ctor:SyncTrack:first_signature!=0", "contract_evaluated"]
 
@@ -108,6 +108,12 @@ def all_event_ticks(chart):
 
 def judge_fault(rec, op, poslab, k, text, zero_tick, truth):
     case = {"text": text, "op": op, "k": k, "zero_tick": zero_tick}
+    if zero_tick is not None and poslab == "last":
+        ticks = []
+        for tr in truth["tracks"].values():
+            ticks += [g["tick"] for g in tr["groups"]]
+        ticks += [t for t, _, _ in truth.get("globals", [])]
+        rec.cls("zero_last:governed_events" if any(t >= zero_tick for t in ticks) else "zero_last:no_governed_events")
     contracts.drain("C15")
     out = harness.parse(text)
     rec.ev()
